@@ -278,7 +278,7 @@ func (r *result) oracleMedia(sc scenario, req areq, o *outcome, ref *aplaylist, 
 	if sc.Cfg.Variant != "LL" {
 		return
 	}
-	desc := fmt.Sprintf("%s: GET %s_stream.m3u8?%s", when, "stream"+strconv.Itoa(req.Stream), rawQuery(req.Query))
+	desc := fmt.Sprintf("%s: GET %s_stream.m3u8?%s", when, "stream"+strconv.Itoa(req.Stream), rawQueryEnc(req.Query, req.Enc))
 	if mr.badArgs {
 		if !(o.Class == "done" && o.Status == 400) {
 			r.fail(sc, "C06:bad-args-not-rejected", desc+": _HLS_part without _HLS_msn / unparsable number must give 400, observed "+o.Class+" "+strconv.Itoa(o.Status))
@@ -293,6 +293,8 @@ func (r *result) oracleMedia(sc scenario, req areq, o *outcome, ref *aplaylist, 
 			sig := "C06:hls-directive-copied:other"
 			if hasBad(req.Query) {
 				sig = "C06:hls-directive-copied:query-parse-error"
+			} else if strings.Contains(rawQueryEnc(req.Query, req.Enc), "%") {
+				sig = "C06:hls-directive-copied:percent-encoded-key"
 			}
 			r.fail(sc, sig, desc+fmt.Sprintf(": URIs of the response carry %v", o.Pl.hlsKeys))
 		}
